@@ -61,7 +61,7 @@ fn space_for(tier: Tier) -> (Space, usize) {
             (s, 3)
         }
         Tier::Thorough => {
-            s.ast("G", 7, 256).ast("BR", 5, 64).ast("BR3", 7, 64);
+            s.ast("G", 8, 1024).ast("BR", 5, 64).ast("BR3", 6, 64);
             s.list("ladder", LADDER.len() as u64, 2);
             (s, 4)
         }
